@@ -5,7 +5,7 @@ CONSTANTS
   N = 3
   MaxTok = 1
   MaxIdle = 0
-  Z = 1
+  Z = 0
   StateSet = {"ACTIVE", "LEAVING", "PENDING", "JOINING", "LEFT"}
   HbSet = {"fresh", "edge", "stale"}
   RFMax = 3
